@@ -1,4 +1,5 @@
 import IgVerif.Lemmas.Query
+import IgVerif.Lemmas.ModuleSearch
 import IgVerif.Schema
 import IgVerif.Gen.C20Guards
 /-!
@@ -130,6 +131,42 @@ theorem c20_unique_name_found (s : St) (name : Bytes) (d : ModDef) (off : Int) (
     (hs : SortedNames d.uniq) (hi : d.uniq[i]? = some (name.drop 4, off)) (hoff : off ≥ 0) :
     s.wrapperByUniqueName name = d.first + off := by
   simp [St.wrapperByUniqueName, hm, bsearch_found d.uniq _ off hs i hi, hoff]
+
+/-! ## function pointers: `interrogate_wrapper_pointer` answers from the right module's table -/
+
+/-- in every state reachable through the interface the registered modules hold index ranges that
+are in registration order, pairwise disjoint, and below the next free index -/
+theorem c20_module_ranges (c : Cfg) (ops : List QOp) :
+    RangesOk (ops.foldl (qstep c) {}).modules ∧
+    ∀ i, i < (ops.foldl (qstep c) {}).modules.length →
+      mnext (ops.foldl (qstep c) {}).modules i ≤ (ops.foldl (qstep c) {}).db.nextIndex :=
+  ⟨(modInv_reachable c ops).ok, (modInv_reachable c ops).below⟩
+
+/-- **exact**: a wrapper index inside the range of the `i`-th registered module is answered from
+that module's pointer table at the offset from the module's first index (whenever the table is that
+long), after any history of requests, lookups and other accessors -/
+theorem c20_fptr_exact (c : Cfg) (ops : List QOp) (i : Nat) (w : Int)
+    (hi : i < (ops.foldl (qstep c) {}).modules.length)
+    (hlo : mfirst (ops.foldl (qstep c) {}).modules i ≤ w) (hhi : w < mnext (ops.foldl (qstep c) {}).modules i)
+    (hn : w - mfirst (ops.foldl (qstep c) {}).modules i < ((ops.foldl (qstep c) {}).modules.getD i {}).numFptrs) :
+    (ops.foldl (qstep c) {}).getFptr w = some (i, w - mfirst (ops.foldl (qstep c) {}).modules i) :=
+  getFptr_exact _ (modInv_reachable c ops).ok i hi w hlo hhi hn
+
+/-- **total**: an index that lies in no module's range (negative, zero, between or beyond the
+ranges, any 32-bit value) has no pointer — in particular nothing outside the table is read -/
+theorem c20_fptr_outside (s : St) (w : Int)
+    (hout : ∀ i, i < s.modules.length → w < mfirst s.modules i ∨ mnext s.modules i ≤ w) : s.getFptr w = none :=
+  getFptr_outside s w hout
+
+/-- the search itself: on ordered disjoint ranges it returns the module whose range holds the index -/
+theorem c20_module_search (mods : List ModDef) (hok : RangesOk mods) (i : Nat) (hi : i < mods.length)
+    (w : Int) (hlo : mfirst mods i ≤ w) (hhi : w < mnext mods i) :
+    bsearchModule mods w (mods.length + 1) 0 mods.length = i :=
+  bsearchModule_finds mods hok i hi w hlo hhi
+
+-- three modules of 2, 3 and 1 wrappers registered one after the other: index 4 belongs to the second
+example : (([QOp.request { first := 1, next := 3, numFptrs := 2 }, .request { first := 1, next := 4, numFptrs := 3 },
+    .request { first := 1, next := 2, numFptrs := 1 }].foldl (qstep cfg) {}).getFptr 4) = some (1, 1) := by decide
 
 /-! ## non-vacuity -/
 
